@@ -23,10 +23,12 @@ exec(compile(src, "interp", "exec"), ns)
 bad = 0
 for fn, args in CASES:
     def run(f):
+        import copy
+        a2 = copy.deepcopy(args)  # mutable arguments: a private copy per call, compared afterwards
         try:
-            return ("value", f(*args))
+            return ("value", f(*a2)) + ((a2,) if any(isinstance(x, list) for x in a2) else ())
         except Exception as e:
-            return ("raises", type(e).__name__)
+            return ("raises", type(e).__name__) + ((a2,) if any(isinstance(x, list) for x in a2) else ())
     a, b = run(getattr(C, fn)), run(ns[fn])
     same = a == b and (a[0] == "raises" or type(a[1]) is type(b[1]))
     print(fn, args, "compiled", a, "interpreted", b, "OK" if same else "MISMATCH")
